@@ -399,6 +399,12 @@ from ..selftest import Seed, unparse_seed  # noqa: E402
 _P = "src/odfdo/paragraph.py"
 _PB = "src/odfdo/paragraph_base.py"
 SEEDS = [
+    Seed("Paragraph.append writes short strings raw", "fault", "src/odfdo/paragraph.py",
+         "        elif formatted:\n            self.append_plain_text(str_or_element)\n        else:\n            # self._Element__append(self._unformatted(str_or_element))",
+         "        elif formatted and len(str_or_element) < 2:\n            self._Element__append(str_or_element)\n        elif formatted:\n            self.append_plain_text(str_or_element)\n        else:\n            # self._Element__append(self._unformatted(str_or_element))", "R05i"),
+    Seed("Paragraph.append tests for a string first", "neutral", "src/odfdo/paragraph.py",
+         "        if isinstance(str_or_element, Element):\n            self._Element__append(str_or_element)\n        elif formatted:\n            self.append_plain_text(str_or_element)\n        else:\n            # self._Element__append(self._unformatted(str_or_element))",
+         "        if not isinstance(str_or_element, Element):\n            if formatted:\n                self.append_plain_text(str_or_element)\n            else:\n                self.append_plain_text(self._unformatted(str_or_element))\n            return\n        else:\n            self._Element__append(str_or_element)\n            return\n        if formatted:\n            pass\n        else:\n            # self._Element__append(self._unformatted(str_or_element))"),
     Seed("Header constructor skips a title made of white space", "fault", "src/odfdo/header.py", "            if text:\n", "            if text and text.strip():\n", "R05f"),
     Seed("closing blanks cut with a $-anchored search", "fault", _P, '_re_only_spaces = re.compile("^ +$")\n', '_re_only_spaces = re.compile("^ +$")\n_re_closing_spaces = re.compile(" +$")\n', "R05h",
          edits=[(_P, "        result: list[Element | str] = []\n        content = [x for x in _re_spaces_split.split(text) if x]\n",
